@@ -541,6 +541,11 @@ func (s *treeScn) finish(root *tnode, how string, cancel context.CancelFunc) (st
 	tr := s.tr
 	ctl := s.ctl
 	ok := s.barrier("final")
+	if ok {
+		// confirmed by a second barrier: what the first one saw at rest is judged at the second
+		time.Sleep(2 * time.Millisecond)
+		ok = s.barrier("confirm")
+	}
 	// snapshots at quiescence
 	s.srv.LogSnapshot()
 	for _, n := range s.nodes {
